@@ -207,6 +207,21 @@ def run_manager(case):
                 path = os.path.join(tmp, f'src{i}')
                 osu.virtual_sizes[path] = size
                 futs.append((size, key, mgr.upload(path, 'bkt', key), kind))
+            elif kind == 'upload_provided':
+                # the size was recorded earlier by the caller and is supplied by a subscriber; the file has grown since (it is longer
+                # than the transfer): the transfer is `size` bytes, and its parts end at byte size-1
+                from s3transfer.subscribers import BaseSubscriber
+
+                class Provide(BaseSubscriber):
+                    def __init__(self, n):
+                        self.n = n
+
+                    def on_queued(self, future, **kw):
+                        future.meta.provide_transfer_size(self.n)
+
+                path = os.path.join(tmp, f'src{i}')
+                osu.virtual_sizes[path] = size + case.get('grown_by', 70000)
+                futs.append((size, key, mgr.upload(path, 'bkt', key, subscribers=[Provide(size)]), 'upload'))
             elif kind == 'copy':
                 s3.api_sizes[('srcbkt', key)] = size
                 futs.append((size, key, mgr.copy({'Bucket': 'srcbkt', 'Key': key}, 'bkt', key), kind))
@@ -416,6 +431,13 @@ def gen_cases(tier, seed):
                 for fe in ('legacy', 'procpool'):
                     d2 = [s for s in dl if math.ceil(s / C) <= 300 and (fe != 'procpool' or s > 0)]
                     cases.append({'type': 'fe', 'fe': fe, 'T': T, 'C': C, 'sizes': d2 if not quick else d2[::3]})
+    # path uploads whose size was supplied by a subscriber while the file has grown since (it is longer than the transfer)
+    for (T, C) in ((8 * MB, 5 * MB), (8 * MB, 8 * MB), (16 * MB, 6 * MB)):
+        for grown in (1, 70000, 3 * C):
+            cases.append({'type': 'mgr', 'kind': 'upload_provided', 'T': T, 'C': C, 'grown_by': grown,
+                          'sizes': sorted({T - 1, T, T + 1000, 2 * C + 1000, 2 * C, 3 * C - 1, 3 * C + 12345})})
+    for (T, C) in ((4, 2), (6, 4), (8, 8)):
+        cases.append({'type': 'mgr', 'kind': 'upload_provided', 'T': T, 'C': C, 'scaled': True, 'grown_by': rng.choice([1, 3, 17]), 'sizes': list(range(1, 40))})
     # thresholds beyond 5 GiB (the largest single PutObject / CopyObject): the threshold alone decides, also between 5 GiB and it
     for T in (5 * GB + 1, 6 * GB, 7 * GB + 5):
         for C in (GB, 5 * GB):
